@@ -465,7 +465,10 @@ def run_io(prop, tier, deadline):
     return outcome
 
 
+import c20  # noqa: E402
+
 PLANS = {}
+PLANS["C20"] = c20.run_c20
 for _p in IO_PLANS:
     PLANS[_p] = (lambda prop: (lambda tier, deadline: run_io(prop, tier, deadline)))(_p)
 for _p in PATHS_PLANS:
